@@ -143,6 +143,16 @@ def make_violation(prop, scratch, v, n, harness_reports):
     rec["replay_on_real_code"] = res
     reproduced = any(r["reproduced"] for r in res)
     rec["failing_input_found"] = bool(reproduced) or bool(paired)
+    # A Verus failure carries no counterexample. If EVERY failed function has a replay test (real instances asserting the
+    # clause the obligation stands for) and all of them pass on the changed code, and no paired Kani harness failed, the
+    # failure is most likely a proof that no longer goes through (a construct without a library specification, a reshaped
+    # loop) rather than a violation: reported as undecided, not as an alarm.
+    have = {r["test"] for r in res if r["reproduced"] is not None}
+    if not reproduced and not paired and tests and all(t in have for t in tests):
+        rec["downgraded"] = "all replay tests of the failed functions pass on the real code and no Kani harness failed: undecided, not a violation"
+        write_json(path, rec)
+        return "UNDECIDED-NOT-A-VIOLATION property=%s unit=%s failed functions %s: their replay tests pass on the real code (replay=%s)" % (
+            prop.id, vu.name, [f["function"].rsplit("::", 1)[-1] for f in v["failed"]], path)
     write_json(path, rec)
     return "VIOLATION property=%s replay=%s%s" % (prop.id, path, "" if reproduced else " no-failing-input-found")
 
